@@ -13,6 +13,8 @@ class P(piperun.PipeProperty):
     def relevant(self, p):
         return p['op'] != 'cycle'
 
+    source_modes = ('pickle', 'pickle', 'wu', 'copy')
+
     def oracle(self, p, obs):
         return oracles.c03(p, obs)
 
